@@ -316,8 +316,9 @@ def nat_fields(c):
     return [(i, f) for i, f in enumerate(c.fields) if f.typ is not None and f.typ.name == "#" and not f.rep]
 
 
-def sem_layout_bits(s, tname, idx, seen=None):
-    """bits given meaning below nat argument idx of type tname (direct masks + passed on)"""
+def sem_layout_bits(s, tname, idx, seen=None, skip_rep=False):
+    """bits given meaning below nat argument idx of type tname (direct masks + passed on);
+    skip_rep: ignore what is inside n*[...] repetitions (what the linter's own analysis sees)"""
     seen = seen if seen is not None else set()
     if (tname, idx) in seen:
         return set()
@@ -331,28 +332,29 @@ def sem_layout_bits(s, tname, idx, seen=None):
         for f in c.fields:
             if f.mask and f.mask[0] == an:
                 bits.add(f.mask[1])
-            for t in f.types():
+            for t in ([] if (skip_rep and f.rep) else f.types()):
                 for node in t.walk():
                     tn = ctor2type.get(node.name, node.name if node.name in s.types() else None)
                     for k, a in enumerate(node.args):
                         if a.nat is None and a.name == an and not a.args and tn:
-                            bits |= sem_layout_bits(s, tn, k, seen)
+                            bits |= sem_layout_bits(s, tn, k, seen, skip_rep)
     return bits
 
 
-def sem_local_bits(s, c, fname):
+def sem_local_bits(s, c, fname, skip_rep=False):
     """bits of the local nat field fname of combinator c that already mean something"""
     ctor2type = {x.name: x.tname for x in s.combs if not x.isfun}
     bits = set()
     for f in c.fields:
         if f.mask and f.mask[0] == fname:
             bits.add(f.mask[1])
-    for t in c.all_types():
+    ts = [t for f in c.fields if not (skip_rep and f.rep) for t in f.types()] + ([c.res] if c.isfun else [])
+    for t in ts:
         for node in t.walk():
             tn = ctor2type.get(node.name, node.name if node.name in s.types() else None)
             for k, a in enumerate(node.args):
                 if a.nat is None and a.name == fname and not a.args and tn:
-                    bits |= sem_layout_bits(s, tn, k)
+                    bits |= sem_layout_bits(s, tn, k, None, skip_rep)
     return bits
 
 
@@ -383,8 +385,10 @@ def type_users(s, c):
     return False
 
 
-def safe_edits(rng, s, nmax):
-    """apply up to nmax documented safe edits; returns (new schema, [edit kinds])"""
+def safe_edits(rng, s, nmax, strict_masks=False):
+    """apply up to nmax documented safe edits; returns (new schema, [edit kinds]).
+    strict_masks: only nats that already guard at least one field count as "existing field mask" (needed when old
+    VALUES are carried over: a nat that was an ordinary number so far holds arbitrary bits in old values)"""
     s = s.copy()
     kinds = []
     g = Gen(rng)
@@ -409,7 +413,7 @@ def safe_edits(rng, s, nmax):
             c, f = rng.choice(cands)
             used = sem_local_bits(s, c, f.name)
             free = [b for b in range(32) if b not in used]
-            if not free:
+            if not free or (strict_masks and not any(g.mask and g.mask[0] == f.name for g in c.fields)):
                 continue
             c.fields.append(Field(f"nf{len(c.fields)}", g.scalar(), (f.name, rng.choice(free))))
         elif k == "field-targ":
@@ -421,7 +425,7 @@ def safe_edits(rng, s, nmax):
             idx = rng.choice([i for i, a in enumerate(c.targs) if a[1] == "#"])
             used = sem_targ_bits(s, c.tname, idx)
             free = [b for b in range(32) if b not in used]
-            if not free:
+            if not free or (strict_masks and not any(g.mask and g.mask[0] == c.targs[idx][0] for g in c.fields)):
                 continue
             c.fields.append(Field(f"nf{len(c.fields)}", g.scalar(), (c.targs[idx][0], rng.choice(free))))
         elif k == "ctor-union":
@@ -632,7 +636,10 @@ def unsafe_edit(rng, s, kind):
         if not x:
             return None
         c, f, deep = x
-        c.fields.append(Field(f"nf{len(c.fields)}", T(rng.choice(SCALARS)), (f.name, rng.choice(deep))))
+        bit = rng.choice(deep)
+        # is the bit visible without looking inside repetitions (the linter does not look there)
+        s.detail = [] if bit in sem_local_bits(s, c, f.name, skip_rep=True) else ["rep"]
+        c.fields.append(Field(f"nf{len(c.fields)}", T(rng.choice(SCALARS)), (f.name, bit)))
     elif kind == "bare-to-union":
         cands = [c for c in combs if not c.isfun and len(types[c.tname]) == 1 and not c.targs and bare_used(s, c)]
         c = pick(cands)
